@@ -61,6 +61,20 @@ def seed_all(s):
         pass
 
 
+# shared between the forked workers of one check: number of calls that ran
+# into the CPU-time limit.  After a few of them the remaining work items are
+# skipped (recorded as not exhaustive) so that a change that makes the real
+# code loop cannot stall the whole check.
+import multiprocessing as _mp
+
+TIMEOUTS = _mp.Value("i", 0)
+MAX_TIMEOUTS = 6
+
+
+def too_many_timeouts():
+    return TIMEOUTS.value >= MAX_TIMEOUTS
+
+
 class Timeout(BaseException):
     """Raised inside a call into the real code that does not return in time
     (BaseException so that ``except Exception`` in the real code lets it through)."""
@@ -72,14 +86,20 @@ def _alarm(*_a):
 
 def with_timeout(seconds, fn, *a, **k):
     """Run fn(*a, **k); raise Timeout if it does not return within `seconds`
-    (main thread of a (forked) process only)."""
-    old = signal.signal(signal.SIGALRM, _alarm)
-    signal.setitimer(signal.ITIMER_REAL, seconds)
+    of CPU time of this process (a timer on consumed CPU time, not wall-clock,
+    so that a loaded machine cannot cause a false alarm; main thread of a
+    (forked) process only)."""
+    old = signal.signal(signal.SIGVTALRM, _alarm)
+    signal.setitimer(signal.ITIMER_VIRTUAL, seconds)
     try:
         return fn(*a, **k)
+    except Timeout:
+        with TIMEOUTS.get_lock():
+            TIMEOUTS.value += 1
+        raise
     finally:
-        signal.setitimer(signal.ITIMER_REAL, 0)
-        signal.signal(signal.SIGALRM, old)
+        signal.setitimer(signal.ITIMER_VIRTUAL, 0)
+        signal.signal(signal.SIGVTALRM, old)
 
 
 # --------------------------------------------------------------------------
